@@ -592,7 +592,8 @@ func main() {
 		}
 	}
 	ctxs := []Ctx{{Nil: true}, {Hex: ""}, {Hex: "00"}, {Hex: "41"},
-		{Hex: hx(mc.Fill(r.Seed, "c15-ctx-32", 32))}, {Hex: hx(mc.Fill(r.Seed, "c15-ctx-200", 200))}}
+		{Hex: hx(mc.Fill(r.Seed, "c15-ctx-32", 32))}, {Hex: hx(mc.Fill(r.Seed, "c15-ctx-200", 200))},
+		{Hex: hx(mc.Fill(r.Seed, "c15-ctx-255", 255))}, {Hex: hx(mc.Fill(r.Seed, "c15-ctx-256", 256))}, {Hex: hx(mc.Fill(r.Seed, "c15-ctx-1000", 1000))}}
 	if th {
 		ctxs = append(ctxs, Ctx{Hex: "0000"}, Ctx{Hex: hx(mc.Fill(r.Seed, "c15-ctx-79", 79))}, Ctx{Hex: hx(mc.Fill(r.Seed, "c15-ctx-80", 80))})
 	}
